@@ -27,7 +27,7 @@ NSM = M + ".NamespaceManager"
 IMMUTABLE = {"prov.identifier.Namespace", "prov.identifier.Identifier", "prov.identifier.QualifiedName", "prov.model.Literal"}
 MEMO_FIELDS = {("prov.identifier.Namespace", "_cache"), ("prov.serializers.provjson.AnonymousIDGenerator", "_cache"),
                ("prov.serializers.provjson.AnonymousIDGenerator", "_count"), ("prov.serializers.provrdf.AnonymousIDGenerator", "_cache"),
-               ("prov.serializers.provrdf.AnonymousIDGenerator", "_count"), (NSM, "_anon_id_count")}
+               ("prov.serializers.provrdf.AnonymousIDGenerator", "_count")}
 EXT = "EXT"
 IMM = "IMM"
 IMM_ATTRS = {"uri", "_uri", "prefix", "_prefix", "localpart", "_localpart", "_str", "langtag", "_langtag", "lineno"}
@@ -883,7 +883,7 @@ class Effects:
         if not ts and owners and all((o, fld) in MEMO_FIELDS for o in owners):
             return "MEMO"
         if ts and all(any(c == NSM for c in self.p.mro(t)) for t in ts if t in self.p.classes) and any(t in self.p.classes for t in ts):
-            return "NS" if fld != "_anon_id_count" else "MEMO"
+            return "NS"
         return field_effect_class(self.ctx, fld)
 
     def _store(self, recv, fld, node, value, rebind):
@@ -1035,7 +1035,12 @@ class Effects:
         else:
             actual = amap.get(base)
             if actual is None:
-                return set()
+                # a nested function's effect on a free variable is an effect on the enclosing function's variable
+                cf = self.p.functions.get(callee)
+                encl = self._cur[0]
+                if cf is None or "<locals>" not in callee or base in self._params(cf) or not (callee.startswith(encl + ".<locals>.") or callee.rsplit(".<locals>.", 1)[0] == encl.rsplit(".<locals>.", 1)[0]):
+                    return set()
+                actual = ast.copy_location(ast.Name(id=base, ctx=ast.Load()), cf.node)
             rs = self.roots_of(actual)
         for h in hops:
             rs = {hop(r, h) for r in rs}
